@@ -49,6 +49,32 @@ def _shape(value):
     return tuple(out)
 
 
+def _apply(expr, rparam, v):
+    """Value of a *string transformation of the spelling* (`r`, `r.replace(a, b)`, `r.strip()` ...)
+    for the concrete spelling v.  Data-level evaluation of a pure str expression; anything else is
+    an unrecognised shape."""
+    if isinstance(expr, ast.Name) and expr.id == rparam:
+        return v
+    if isinstance(expr, ast.Constant) and isinstance(expr.value, str):
+        return expr.value
+    if isinstance(expr, ast.Call) and isinstance(expr.func, ast.Attribute) and expr.func.attr in ("replace", "strip", "lstrip", "rstrip", "lower", "upper") and all(isinstance(a, ast.Constant) for a in expr.args) and not expr.keywords:
+        base = _apply(expr.func.value, rparam, v)
+        return getattr(base, expr.func.attr)(*[a.value for a in expr.args])
+    raise AnalysisError(f"redirect decoder looks the spelling up through an unrecognised transformation `{unparse(expr)}`")
+
+
+def _split_spelling(s_):
+    """origin / operator / destination of a spelling, by the first run of > or < (the regex's group
+    languages contain neither character, so this split is the only possible match)."""
+    i = 0
+    while i < len(s_) and s_[i] not in "<>":
+        i += 1
+    j = i
+    while j < len(s_) and s_[j] in "<>":
+        j += 1
+    return s_[:i], s_[i:j], s_[j:]
+
+
 def check(ctx):
     ctx.not_decided += [
         "that bytes actually arrive at the target (run-time I/O)",
@@ -88,6 +114,7 @@ def check(ctx):
     ps = dtable.paths(rs)
     rparam, locparam = rs.args.args[0].arg, rs.args.args[1].arg
     rows = {}  # map name -> shape
+    subj_ast = {}  # row -> AST of the expression that is looked up
     open_rows = {}  # (mode-atom, orig set) -> shape
     for p in ps:
         lits = dtable.literals(p)
@@ -105,9 +132,11 @@ def check(ctx):
             subj = unparse(last.left)
             if tbl in ("_A2P_MAP", "_E2P_MAP", "_E2O_MAP", "_O2E_MAP"):
                 rows[tbl] = (sh, subj, p)
+                subj_ast[tbl] = last.left
                 continue
             if tbl in ("_REDIR_ALL", "_REDIR_OUT", "_REDIR_ERR"):
                 open_rows[tbl] = (sh, subj, p)
+                subj_ast[tbl] = last.left
                 continue
         if isinstance(last, ast.Compare) and isinstance(last.ops[0], ast.Eq) and const_value(last.comparators[0]) == "r":
             open_rows["<"] = (sh, unparse(last.left), p)
@@ -143,11 +172,17 @@ def check(ctx):
             g = any(pol and isinstance(e, ast.Compare) and isinstance(e.ops[0], ast.In) and unparse(e.comparators[0]) == "_WRITE_MODES" for e, pol in lits)
             ctx.ob("R1", st, f"origin in {tbl} is consulted only for write modes", g, key=f"open-guard|{tbl}", where=loc(p.node))
     # subjects: map rows test r (pipe maps) / r without '&' (merge maps); open rows test the decoded origin
-    subj_ok = rows["_A2P_MAP"][1] == rparam and rows["_E2P_MAP"][1] == rparam and rows["_E2O_MAP"][1] == strip and rows["_O2E_MAP"][1] == strip
-    ctx.ob("R1", st, "merge rows are looked up with '&' removed, pipe rows verbatim", subj_ok, key="row-subjects", detail=str({k: v[1] for k, v in rows.items()}))
+    del strip
+    parse_arg = None
     for tbl in ("_REDIR_OUT", "_REDIR_ERR", "_REDIR_ALL"):
         s = open_rows[tbl][1]
-        ctx.ob("R1", st, f"{tbl} is tested on the decoded origin", "_parse_redirects" in s and s.endswith("[0]"), key=f"open-subject|{tbl}", detail=s)
+        sa = subj_ast[tbl]
+        okp = isinstance(sa, ast.Subscript) and const_value(sa.slice) == 0 and isinstance(sa.value, ast.Call) and call_name(sa.value) == "_parse_redirects" and len(sa.value.args) >= 1
+        ctx.ob("R1", st, f"{tbl} is tested on the decoded origin", okp, key=f"open-subject|{tbl}", detail=s)
+        if okp:
+            parse_arg = sa.value.args[0]
+    if parse_arg is None:
+        raise AnalysisError(f"{st}: cannot find what is handed to _parse_redirects")
 
     # ---- decoder tables: disjointness (so the order of tests cannot matter)
     maps = ["_A2P_MAP", "_E2P_MAP", "_E2O_MAP", "_O2E_MAP"]
@@ -186,11 +221,18 @@ def check(ctx):
     V1 = sorted(want1 | {">", ">>", "<"})
     V2 = sorted(redir_map)
     rowsets = {}
+    def claims(m, v):
+        return _apply(subj_ast[m], rparam, v) in tables[m]
+
     for v in V1:
         op = ">>" if v.endswith(">>") else v[-1]
         orig = v[: -len(op)]
         site_ = f"spelling {v!r}"
         cls = ORIG_CLASS.get(orig)
+        # what the decoder actually splits: the spelling after the transformation applied before _parse_redirects
+        seen_by_parser = _apply(parse_arg, rparam, v)
+        d_orig, d_op, d_dest = _split_spelling(seen_by_parser)
+        ctx.ob("R1", site_, f"_parse_redirects receives the spelling with its origin and operator intact (it sees {seen_by_parser!r})", (d_orig, d_op, d_dest) == (orig, op, ""), key=f"vocab1|mangled-before-parse|{v}")
         ctx.ob("R1", site_, "the tokenizer's redirect name is a documented origin", cls is not None, key=f"vocab1|unknown-origin|{v}")
         if cls is None:
             continue
@@ -203,7 +245,7 @@ def check(ctx):
         ctx.ob("R1", site_, f"operator {op!r} decodes to mode {MODES[op]!r}", modes.get(op) == MODES[op], key=f"vocab1|mode|{v}")
         rowsets.setdefault((cls, MODES[op]), []).append(v)
         # an IOREDIRECT1 spelling must not be captured by a merge/pipe map
-        hit = [m for m in maps if v in tables[m] or v.replace("&", "") in tables[m]]
+        hit = [m for m in maps if claims(m, v)]
         ctx.ob("R1", site_, "a file redirect is not shadowed by a merge/pipe map", not hit, key=f"vocab1|shadowed|{v}", detail=str(hit))
     for v in V2:
         site_ = f"spelling {v!r}"
@@ -216,9 +258,8 @@ def check(ctx):
         ctx.ob("R1", site_, f"documented meaning exists for ({oc} -> {dc})", row is not None, key=f"vocab2|undocumented|{v}")
         if row is None:
             continue
-        subject = v if row in ("_A2P_MAP", "_E2P_MAP") else v.replace("&", "")
-        ctx.ob("R1", site_, f"decoded by {row} (documented: {oc} -> {dc})", subject in tables[row], key=f"vocab2|not-decoded|{v}")
-        others = [m for m in maps if m != row and ((v in tables[m]) if m in ("_A2P_MAP", "_E2P_MAP") else (v.replace("&", "") in tables[m]))]
+        ctx.ob("R1", site_, f"decoded by {row} (documented: {oc} -> {dc})", claims(row, v), key=f"vocab2|not-decoded|{v}")
+        others = [m for m in maps if m != row and claims(m, v)]
         ctx.ob("R1", site_, "no other decoder map claims the spelling", not others, key=f"vocab2|ambiguous|{v}", detail=str(others))
         rowsets.setdefault(row, []).append(v)
     ctx.extra["equivalence_classes"] = {str(k): v for k, v in rowsets.items()}
